@@ -242,3 +242,20 @@ func checkC14(tier string) int {
 		gates: map[string]int{"ok:PROPOSAL_CREATE": 6, "ok:PROPOSAL_FUND": 5, "ok:PROPOSAL_VOTE": 4, "ok:PROPOSAL_CANCEL": 1, "ok:PROPOSAL_WITHDRAW_FUNDS": 2},
 	}, tier)
 }
+
+func checkC15(tier string) int {
+	return runSubsys(subsysCfg{
+		id:      "C15",
+		rule:    "seeded histories in which the harness plays users (ETH and ERC-20 locks and redeems with locally signed Ethereum transactions) and the 3-4 witnesses (finality reports in seed-dependent orders, success/failure/mixed plans), plus non-witness reporters, repeated votes, votes under another witness's index, a first reporter and a threshold-crossing reporter that lie about the beneficiary, duplicate submissions while ongoing / after success / after failure; every block the vote slots are replayed from the successful reports (own slot, first vote), releases and failures checked against the more-than-two-thirds threshold, every wrapped-balance change matched against confirmed locks / refunds / redeems of that owner, the three tracker stores checked for double records and the supply counter against circulation; a case is one block; non-trivial = a tracker record or wrapped balance changed; distinct by (seed, height, app hash)",
+		assume:  []string{"a failed lock may be resubmitted (its failed tracker is replaced), as the lock handler documents"},
+		scripts: []string{"eth-hostile", "transfers"},
+		nhQ:     8, nhT: 60, blQ: 40, blT: 90,
+		params: func(i int, hseed int64) world.Params {
+			return world.Params{Frankenstein: 1, NumGenesisVals: 4, NumCandidates: 1, NumWitnesses: 3 + i%2}
+		},
+		newMon: func(w *world.World) func(run *hist.Runner, blk *hist.Block) []mon.Finding {
+			return wrapStateful(mon.C15)
+		},
+		gates: map[string]int{"ok:ETH_LOCK": 2, "ok:ETH_REDEEM": 1, "ok:ERC20_LOCK": 1, "ok:ETH_REPORT_FINALITY_MINT": 8},
+	}, tier)
+}
